@@ -121,6 +121,17 @@ class Native:
         return outs
 
 
+def native_arg(eng, kernel, i, v):
+    """Narrow integer arguments must be passed sign-/zero-extended to 32 bits (x86-64 clang ABI)."""
+    import llir
+    fn = eng.m.funcs[kernel]
+    bits = eng.bits_of(fn.params[i][0])
+    v &= (1 << bits) - 1
+    if bits < 64 and i in llir.SIGNEXT_PARAMS.get(kernel, ()) and (v >> (bits - 1)) & 1:
+        v |= ((1 << 64) - 1) ^ ((1 << bits) - 1)
+    return v
+
+
 class Buf:
     """An application-memory buffer handed to a kernel (engine: a heap block; native: @id)."""
 
@@ -394,11 +405,11 @@ class Ctx:
         if envs:
             lines.append("env " + " ".join("%x" % mval(m, v) for (_, v) in envs))
         args = []
-        for a, c in zip(p.args, p.cargs):
+        for i, (a, c) in enumerate(zip(p.args, p.cargs)):
             if isinstance(a, Buf):
                 args.append("@%d" % a.idx)
             else:
-                args.append("%x" % mval(m, c))
+                args.append("%x" % native_arg(self.eng, p.kernel, i, mval(m, c)))
         lines.append("call %s %s" % (p.kernel, " ".join(args)))
         for bf in self.bufs:
             lines.append("dumpbuf %d" % bf.idx)
@@ -478,8 +489,8 @@ class Ctx:
                     "%02x" % (simp(b).as_long() if is_conc(simp(b)) else 0) for b in bf.init)))
             if env:
                 lines.append("env " + " ".join("%x" % v for v in env))
-            lines.append("call %s %s" % (kernel, " ".join(("@%d" % a.idx) if isinstance(a, Buf) else "%x" % a
-                                                         for a in vec)))
+            lines.append("call %s %s" % (kernel, " ".join(("@%d" % a.idx) if isinstance(a, Buf) else "%x" % native_arg(self.eng, kernel, i, a)
+                                                         for i, a in enumerate(vec))))
             cases.append(lines)
             # engine, inputs pinned
             st = self.init_state()
